@@ -1453,6 +1453,11 @@ impl<'a> CExec<'a> {
             ("fmod", _) => m(Math::Fmod, &vals)?,
             ("isnan", _) => m(Math::IsNan, &vals)?,
             ("isinf", _) => m(Math::IsInf, &vals)?,
+            // the HLSL documents disagree on whether the bit intrinsics return uint or the operand type for signed operands
+            // (RSSL declares the operand type): a sample whose later arithmetic could depend on it is not judged
+            ("countbits" | "reversebits" | "firstbitlow" | "firstbithigh", true) if matches!(vals[0].lanes()?[0].kind(), Kind::Int) => {
+                return unsup("bit intrinsic on a signed operand (result signedness is not settled across HLSL references)");
+            }
             ("countbits", true) | ("popcount", false) => {
                 let r = m(Math::CountBits, &vals)?;
                 if hlsl {
